@@ -33,7 +33,7 @@ ALL_TREE_FUNCS = SUM_FAMILY + VAR_FAMILY + PROD_FAMILY + MINMAX + ARG + ["nanfir
 BLOCKWISE_ONLY = ["first", "last"] + ORDER
 SCANS = ["nancumsum", "ffill", "bfill"]
 
-FAULT_KINDS = ["dup", "crash", "ser_task", "ser_result", "readonly", "ro_data"]
+FAULT_KINDS = ["dup", "crash", "ser_task", "ser_result", "readonly", "ro_data", "spill"]
 
 
 def swarm_knobs(tape: Tape, nblocks: int, *, allow_faults: bool = True, fault_free_p: float = 0.25) -> dict:
@@ -49,7 +49,7 @@ def swarm_knobs(tape: Tape, nblocks: int, *, allow_faults: bool = True, fault_fr
     if allow_faults and not tape.chance("swarm.faultfree", fault_free_p):
         kinds = [k for k in FAULT_KINDS if tape.chance("swarm.kind", 0.5)]
         rates = {"dup": [0.1, 0.3], "crash": [0.01, 0.03, 0.06], "ser_task": [0.3, 1.0], "ser_result": [0.3, 1.0],
-                 "readonly": [0.5, 1.0], "ro_data": [0.5, 1.0]}
+                 "readonly": [0.5, 1.0], "ro_data": [0.5, 1.0], "spill": [0.05, 0.2]}
         for k in kinds:
             knobs["faults"][k] = tape.choice("swarm.rate", rates[k])
     return knobs
